@@ -21,8 +21,8 @@ from sim import conv, gen, seams
 from sim.kernel import Engine, EventQueue, StopRun
 
 RULES = ['none', 'none', 'tx-vin-empty', 'tx-vout-empty', 'value-negative', 'value-toolarge', 'total-toolarge', 'duplicate-input', 'cb-script-1', 'cb-script-101',
-         'cb-script-2', 'cb-script-100', 'null-prevout', 'second-coinbase', 'no-coinbase', 'duplicate-tx', 'sigops-20000', 'sigops-20001', 'sigops-cb-20001',
-         'sigops-malformed-push', 'sigops-in-scriptsig', 'size-at-limit', 'size-over-limit', 'weight-over-limit', 'merkle-wrong', 'wit-no-commitment', 'wit-bad-commitment',
+         'cb-script-2', 'cb-script-100', 'null-prevout', 'second-coinbase', 'no-coinbase', 'duplicate-tx', 'duplicate-txid-other-witness', 'sigops-20000', 'sigops-20001', 'sigops-cb-20001',
+         'sigops-malformed-push', 'sigops-in-scriptsig', 'sigops-cb-scriptsig-20001', 'sigops-cb-scriptsig-20000', 'size-at-limit', 'size-over-limit', 'weight-over-limit', 'merkle-wrong', 'wit-no-commitment', 'wit-bad-commitment',
          'wit-commitment-in-other-tx', 'wit-coinbase-no-witness', 'wit-reserved-31', 'wit-reserved-2items', 'wit-valid', 'wit-only-coinbase', 'time-7200', 'time-7201',
          'time-far', 'pow-limit', 'pow-zero', 'pow-negative', 'pow-overflow', 'pow-hash-high', 'empty-block', 'cb-value-negative', 'cb-dup-of-tx', 'value-max', 'total-max']
 
@@ -325,6 +325,13 @@ class BlockNet(Engine):
         elif rule == 'duplicate-tx':
             t = copy.deepcopy(some_tx())
             txs.append(t)
+        elif rule == 'duplicate-txid-other-witness':
+            # same txid, different witness data (so the witness hashes differ)
+            o = some_tx()
+            t = copy.deepcopy(o)
+            o['wit'] = [['aa' * (1 + r[1] % 9)]] + [[] for _ in o['vin'][1:]]
+            t['wit'] = [['bb' * (1 + r[2] % 9), 'cc']] + [[] for _ in t['vin'][1:]] if r[3] % 2 else None
+            txs.append(t)
         elif rule in ('sigops-20000', 'sigops-20001', 'sigops-malformed-push', 'sigops-in-scriptsig'):
             existing = sum(BR.tx_sigops(t) for t in txs)
             want = 20001 if rule == 'sigops-20001' else 20000
@@ -344,6 +351,17 @@ class BlockNet(Engine):
                     k = min(per, need)
                     t['vout'].append({'value': 0, 'script': self._sigop_script(k, malformed_tail=(rule == 'sigops-malformed-push'))})
                     need -= k
+        elif rule in ('sigops-cb-scriptsig-20001', 'sigops-cb-scriptsig-20000'):
+            # part of the total sits in the coinbase scriptSig (2..100 bytes, never executed but counted)
+            k = 1 + r[1] % 100
+            txs[0]['vin'][0]['script'] = ('ac' * k) if k >= 2 else 'ac51'
+            want = 20001 if rule.endswith('20001') else 20000
+            t = some_tx()
+            need = max(0, want - sum(BR.tx_sigops(x) for x in txs))
+            while need > 0:
+                n = min(9000, need)
+                t['vout'].append({'value': 0, 'script': self._sigop_script(n)})
+                need -= n
         elif rule == 'sigops-cb-20001':
             existing = sum(BR.tx_sigops(t) for t in txs)
             need = max(0, 20001 - existing)
